@@ -22,7 +22,7 @@ from .c05 import gen_text
 
 REPLAY_BY_RERUN = True  # workloads are deterministic in (tier, seed, shard): replay re-runs the shard
 SHARDS = {"quick": 8, "thorough": 16}
-TIMEOUT = {"quick": 900, "thorough": 3600}
+TIMEOUT = {"quick": 1800, "thorough": 7200}
 N_HIST = {"quick": 8, "thorough": 24}  # per configuration per shard (56 configurations)
 
 ENCODINGS = [None, "utf-8", "utf-16", "latin-1"]
